@@ -67,6 +67,7 @@ type c04finding struct {
 }
 
 type c04ctx struct {
+	options  bool // decode with non-default decoder options in this run
 	garbage  int
 	r        *Run
 	findings map[string]*c04finding
@@ -152,6 +153,15 @@ func (c *c04ctx) decodeInto(input []byte, dests []c04dest, refMode bool, viaRead
 				dec = hio.NewDecoder(input)
 			}
 			dec.Simple(!refMode)
+			if c.options {
+				// every decoder option away from its default: typed lists and struct values, for one, make keys
+				// and elements of types the default options never produce
+				dec.LongType, dec.RealType, dec.MapType = hio.LongTypeBigInt, hio.RealTypeFloat32, hio.MapTypeSIMap
+				dec.StructType, dec.ListType = hio.StructTypeValue, hio.ListTypeSlice
+				if c.decodes%2 == 0 {
+					dec.MapType = hio.MapTypeIIMap
+				}
+			}
 			dec.Decode(d.mk())
 		})
 	}
@@ -269,6 +279,8 @@ func (c *c04ctx) faults(r *Run, stream []byte, f func(desc string, faulty []byte
 }
 
 func c04Unmarshal(r *Run, c *c04ctx, viaReader bool) {
+	c.options = r.Plan(3) == 0
+	r.Param("decoder_options", c.options)
 	it := r.genValue(2)
 	refMode := r.PlanBool(2) || r.hasCycle()
 	enc := hio.NewEncoder(nil).Simple(!refMode)
